@@ -206,7 +206,10 @@ fn syntax(rep: &mut Report, idx: usize, case: &Value) {
 
 /// C19: the three metadata answers for a byte string
 pub fn meta_answers(src: &[u8]) -> Value {
-    let m = ProguardMapping::new(src);
+    meta_answers_of(&ProguardMapping::new(src))
+}
+
+pub fn meta_answers_of(m: &ProguardMapping) -> Value {
     let s = m.summary();
     json!({
         "is_valid": m.is_valid(),
